@@ -92,7 +92,7 @@ func New(opts Options) (CommitLog, error) {
 	if opts.HWCheckpointInterval == 0 {
 		opts.HWCheckpointInterval = defaultHWCheckpointInterval
 	}
-	if opts.CleanerInterval == 0 {
+	if opts.CleanerInterval <= 0 {
 		opts.CleanerInterval = defaultCleanerInterval
 	}
 
